@@ -25,6 +25,8 @@ import sys
 import tempfile
 import tokenize
 
+REPO = os.environ.get('GIN_REPO', '/repo')
+
 WIDTHS = [1, 5, 10, 20, 40, 76, 80, 120]
 TYPES = {tokenize.NAME: 'NAME', tokenize.NUMBER: 'NUMBER', tokenize.STRING: 'STRING', tokenize.OP: 'OP',
          tokenize.NEWLINE: 'NEWLINE', tokenize.NL: 'NL', tokenize.ENDMARKER: 'ENDMARKER'}
@@ -230,13 +232,13 @@ _GIN = []
 def load_gin():
   """gin from /repo with the probe configurable registered (once)"""
   if not _GIN:
-    sys.path.insert(0, '/repo')
+    sys.path.insert(0, REPO)
     import gin  # pylint: disable=import-outside-toplevel
 
     @gin.configurable
     def probe(x=None):  # pylint: disable=unused-variable
       return x
-    assert gin.__file__.startswith('/repo/'), gin.__file__
+    assert os.path.realpath(gin.__file__).startswith(os.path.realpath(REPO) + '/'), gin.__file__
     _GIN.append(gin)
   return _GIN[0]
 
